@@ -439,29 +439,38 @@ theorem prod_canon (fs : List (List Val)) (hl : fs.length ≥ 2)
 /-! ## cardinality -/
 
 theorem prodCard_step_sat (fs : List (List Val)) :
-    fs.foldl (fun count f => if SET_INFINITY / f.length > count then count * f.length else SET_INFINITY)
+    fs.foldl (fun count f => if SET_INFINITY / f.length ≥ count then count * f.length else SET_INFINITY)
       SET_INFINITY = SET_INFINITY := by
   induction fs with
   | nil => rfl
   | cons f fs ih =>
     simp only [List.foldl_cons]
-    have : ¬ SET_INFINITY / f.length > SET_INFINITY := by
-      have := Nat.div_le_self SET_INFINITY f.length
-      omega
-    rw [if_neg this]
-    exact ih
+    by_cases hc : SET_INFINITY / f.length ≥ SET_INFINITY
+    · rw [if_pos hc]
+      have h1 : f.length = 1 := by
+        apply Classical.byContradiction
+        intro hne
+        by_cases h0 : f.length = 0
+        · rw [h0, Nat.div_zero] at hc
+          exact absurd hc (by decide)
+        · have := Nat.div_lt_self (n := SET_INFINITY) (k := f.length) (by decide) (by omega)
+          omega
+      rw [h1, Nat.mul_one]
+      exact ih
+    · rw [if_neg hc]
+      exact ih
 
 theorem prodCard_aux (fs : List (List Val)) : ∀ acc : Nat,
-    fs.foldl (fun count f => if SET_INFINITY / f.length > count then count * f.length else SET_INFINITY)
+    fs.foldl (fun count f => if SET_INFINITY / f.length ≥ count then count * f.length else SET_INFINITY)
       acc ≠ SET_INFINITY →
-    fs.foldl (fun count f => if SET_INFINITY / f.length > count then count * f.length else SET_INFINITY)
+    fs.foldl (fun count f => if SET_INFINITY / f.length ≥ count then count * f.length else SET_INFINITY)
       acc = fs.foldl (fun n f => n * f.length) acc := by
   induction fs with
   | nil => intro acc _; rfl
   | cons f fs ih =>
     intro acc h
     simp only [List.foldl_cons] at h ⊢
-    by_cases hc : SET_INFINITY / f.length > acc
+    by_cases hc : SET_INFINITY / f.length ≥ acc
     · rw [if_pos hc] at h ⊢
       exact ih _ h
     · rw [if_neg hc] at h
